@@ -295,9 +295,10 @@ def is_valid_ip(ip: str) -> bool:
 
     Supports IPv4 and IPv6.
     """
-    if not ip or "\x00" in ip:
-        # getaddrinfo resolves empty strings to localhost, and truncates
-        # on zero bytes.
+    if not ip or "\x00" in ip or ip == "*" or not ip.isascii():
+        # getaddrinfo resolves empty strings (and, with glibc, "*") to
+        # localhost, truncates on zero bytes, and IDNA-normalizes
+        # non-ASCII text (so "\u00b9.2.3.4" would pass as "1.2.3.4").
         return False
     try:
         res = socket.getaddrinfo(
